@@ -22,6 +22,8 @@ pub enum Case {
     Refused(c13::Case),
     /// one crash point / fault of a case, for replay: (inner case, prefix length or fault index, kind)
     Point { inner: Box<Case>, k: usize, what: PointKind },
+    /// the real converter writing to /dev/full (every write fails with ENOSPC): it must not exit 0
+    DevFull { bw: bool, threads: u8, parallel: bool, single_pass: bool, inmemory: bool, uncompressed: bool },
 }
 
 #[derive(Serialize, Deserialize, Clone, Copy, Debug, PartialEq)]
@@ -286,7 +288,8 @@ impl Prop for C14 {
          (thorough: plus torn final writes at 64-byte cuts) is handed to the readers — it must be rejected (open or some query fails/panics) or serve the complete model (chromosome table, \
          every chromosome's records, every advertised zoom level, boundary queries); and for every operation kind and every index k the k-th write / seek / flush fails once (and, separately, \
          fails from then on): the call must not return Ok and must return within the deadline. Refused inputs (C13 classes): whatever is left must be rejected or self-consistent. \
-         evaluations = prefixes + faults; non-trivial = prefixes lying after the first data write and before the header rewrite, and faults hit by a spawned task's write (counted per point; distinct by construction)"
+         evaluations = prefixes + faults; FIXED: the real bedgraphtobigwig / bedtobigbed (threads 1/4, --parallel yes/no, one/two pass, both buffering modes) writing to /dev/full must terminate and must not exit 0. \
+         non-trivial = prefixes lying after the first data write and before the header rewrite, and faults hit by a spawned task's write (counted per point; distinct by construction)"
             .into()
     }
     fn technique() -> String {
@@ -304,6 +307,24 @@ impl Prop for C14 {
     }
     fn cases(tier: Tier) -> u64 {
         tier.pick(600, 4000)
+    }
+    fn fixed_cases(_tier: Tier) -> Vec<Case> {
+        let mut v = vec![];
+        if !std::path::Path::new("/dev/full").exists() {
+            return v;
+        }
+        for bw in [true, false] {
+            for threads in [1u8, 4] {
+                for parallel in [false, true] {
+                    for single_pass in [false, true] {
+                        for inmemory in [false, true] {
+                            v.push(Case::DevFull { bw, threads, parallel, single_pass, inmemory, uncompressed: (threads == 4) ^ inmemory });
+                        }
+                    }
+                }
+            }
+        }
+        v
     }
     fn strategy(_tier: Tier) -> BoxedStrategy<Case> {
         let bw = small_opts()
@@ -350,6 +371,57 @@ impl Prop for C14 {
                     PointKind::FailSeek { sticky } => (0..8).try_for_each(|_| judge_fault(inner, OpKind::Seek, *k, *sticky).map(|_| ())),
                     PointKind::FailFlush { sticky } => (0..8).try_for_each(|_| judge_fault(inner, OpKind::Flush, *k, *sticky).map(|_| ())),
                 }
+            }
+            Case::DevFull { bw, threads, parallel, single_pass, inmemory, uncompressed } => {
+                use super::cli::{bindir, run_tool, tmpdir};
+                obs.label("cli-dev-full");
+                if bindir().is_none() {
+                    obs.label("tool-binaries-missing");
+                    return Err("the command-line binaries are not built (VERIF_BIN): ./check builds them".into());
+                }
+                let dir = tmpdir("c14_")?;
+                let p = |n: &str| dir.path().join(n).to_string_lossy().to_string();
+                let mut text = String::new();
+                let mut sizes = String::new();
+                for c in 0..4 {
+                    sizes.push_str(&format!("chr{}\t100000\n", c));
+                    for i in 0..300u32 {
+                        if *bw {
+                            text.push_str(&format!("chr{}\t{}\t{}\t{}\n", c, i * 20, i * 20 + 13, (i % 17) as f32 / 4.0));
+                        } else {
+                            text.push_str(&format!("chr{}\t{}\t{}\tname{}\t{}\n", c, i * 20, i * 20 + 33, i, i % 9));
+                        }
+                    }
+                }
+                std::fs::write(p("in.txt"), &text).map_err(|e| e.to_string())?;
+                std::fs::write(p("sizes"), &sizes).map_err(|e| e.to_string())?;
+                let tool = if *bw { "bedgraphtobigwig" } else { "bedtobigbed" };
+                let mut args: Vec<String> = vec![p("in.txt"), p("sizes"), "/dev/full".into(), "-t".into(), threads.to_string()];
+                args.push(format!("--parallel={}", if *parallel { "yes" } else { "no" }));
+                if *single_pass {
+                    args.push("--single-pass".into());
+                }
+                if *inmemory {
+                    args.push("--inmemory".into());
+                }
+                if *uncompressed {
+                    args.push("--uncompressed".into());
+                }
+                let out = run_tool(tool, &args, &[], 60)?;
+                obs.evals += 1;
+                obs.nontrivial = *threads > 1;
+                if out.timed_out {
+                    return Err(format!("{} {:?} writing to /dev/full (every write fails) did not terminate within 60 s", tool, &args[3..]));
+                }
+                if out.code == Some(0) {
+                    return Err(format!(
+                        "{} {:?} writing to /dev/full (every write fails with ENOSPC) exited 0: an I/O failure reported as success",
+                        tool,
+                        &args[3..]
+                    ));
+                }
+                obs.label(if out.panicked() { "cli-dev-full-panic-exit" } else { "cli-dev-full-error-exit" });
+                Ok(())
             }
             Case::Refused(c) => {
                 obs.label("refused-input");
